@@ -133,6 +133,27 @@ def run(ctx):
             d = simlib.diff_snap(snap0, simlib.snapshot(net))
             if d:
                 viol.append(dict(case, kind="repeated integrate calls changed the module", changed=d))
+            # data_set of a synaptic parameter: the SAME param_state object passed to several calls
+            import copy as _copy
+            e2 = cl
+            pkey = "IonotropicSynapse_gS" if tys[e2] is IonotropicSynapse else "TestSynapse_gC"
+            with quiet():
+                twin = _copy.deepcopy(net)
+                twin.select(edges=[e2]).set(pkey, 7e-4)
+                want = np.asarray(jx.integrate(twin, **kw))
+                ps = net.select(edges=[e2]).data_set(pkey, 7e-4, None)
+                ps_before = repr(jax.tree_util.tree_map(lambda a: np.asarray(a).tolist(), ps))
+                runs = [np.asarray(jx.integrate(net, param_state=ps, **kw)) for _ in range(3)]
+                runs.append(np.asarray(jax.jit(lambda: jx.integrate(net, param_state=ps, **kw))()))
+                ps_after = repr(jax.tree_util.tree_map(lambda a: np.asarray(a).tolist(), ps))
+            evals += 4
+            for ri, o in enumerate(runs):
+                if o.shape != want.shape or np.abs(o - want).max() > 1e-9 * max(1.0, float(np.abs(want).max())):
+                    viol.append(dict(case, kind="integrate with the same param_state differs between calls / from the module with the value set()",
+                                     call=ri, key=pkey, edge=e2, maxdiff=float(np.abs(o - want).max()) if o.shape == want.shape else None))
+                    break
+            if ps_before != ps_after:
+                viol.append(dict(case, kind="integrate modified the param_state it was given", before=ps_before[:300], after=ps_after[:300]))
         except Exception as ex:
             import traceback as _tb
             viol.append({"kind": "network integrate raised", "edge_types": [t.__name__ for t in tys], "error": repr(ex)[:300], "trace": _tb.format_exc()[-600:]})
@@ -145,7 +166,7 @@ def run(ctx):
 
 RULE = ("random branched cells (Leak or HH, heterogeneous parameters, stimulus on 1-2 compartments, optional clamp of different width, trainables) x (solver, backend): "
         "eager vs repeated vs jit vs vmap(params) vs vmap(stimuli) vs every checkpoint_lengths factorisation (depth<=3, product in [n, n+slack]); "
-        "deep snapshot of the module before/after; networks with interleaved synapse types, a clamp on the synaptic state of an edge whose global index differs from its index within the type, voltage clamp, stimulus: first call vs repeated vs jit vs third vs checkpoint layouts, clamp followed exactly, module unchanged; distinct by (cell, steps, layout)")
+        "deep snapshot of the module before/after; networks with interleaved synapse types, a clamp on the synaptic state of an edge whose global index differs from its index within the type, voltage clamp, stimulus: first call vs repeated vs jit vs third vs checkpoint layouts, clamp followed exactly, module unchanged; data_set of a synaptic parameter with the same param_state passed to repeated / jitted calls (vs the value set(), param_state unchanged); distinct by (cell, steps, layout)")
 
 
 def _rest(ctx, rng, cell, params, kw, vs, case, ref, scale, snap0, nsteps, parents, counts, use_hh, viol, distinct, evc):
